@@ -42,6 +42,9 @@ type Action struct {
 	Kind string `json:"kind"` // explicit | announce | explicit-head | none
 	Fail bool   `json:"fail"` // the publisher fails the head block request
 	Adv  int    `json:"adv"`  // how many advertisements the head advances by
+	// per-call options of an explicit sync (0 = not given)
+	Depth int `json:"depth,omitempty"` // ScopedDepthLimit
+	Seg   int `json:"seg,omitempty"`   // ScopedSegmentDepthLimit
 }
 
 type Scenario struct {
@@ -53,6 +56,27 @@ type Scenario struct {
 	Rules     []subdrv.Rule  `json:"rules"`
 	Random    int            `json:"random"` // perturb about one in Random yield points (0 = never)
 	MaxAsync  int            `json:"max_async"`
+	// Subscriber options that change how a sync walks the chain and counts blocks (0 = not given)
+	SegDepth   int `json:"seg_depth,omitempty"`   // SegmentDepthLimit
+	AdsDepth   int `json:"ads_depth,omitempty"`   // AdsDepthLimit
+	FirstDepth int `json:"first_depth,omitempty"` // FirstSyncDepth
+}
+
+// blocksOwed is the number of advertisements a sync of a publisher whose head is #head
+// and whose latest sync is #latest (-1: none) fetches under the scenario's options: the
+// new ones, cut at the depth limit that applies to this sync.
+func (sc *Scenario) blocksOwed(a *action, latest int) int {
+	n := a.head - latest
+	limit := sc.AdsDepth
+	if a.Kind == "explicit" && a.Depth != 0 {
+		limit = a.Depth
+	} else if latest < 0 && sc.FirstDepth != 0 {
+		limit = sc.FirstDepth
+	}
+	if limit > 0 && n > limit {
+		n = limit
+	}
+	return n
 }
 
 type Ev struct {
@@ -200,6 +224,15 @@ func runScenario(sc Scenario) (res Result) {
 	if sc.MaxAsync > 0 {
 		opts = append(opts, dagsync.MaxAsyncConcurrency(sc.MaxAsync))
 	}
+	if sc.SegDepth != 0 {
+		opts = append(opts, dagsync.SegmentDepthLimit(int64(sc.SegDepth)))
+	}
+	if sc.AdsDepth != 0 {
+		opts = append(opts, dagsync.AdsDepthLimit(int64(sc.AdsDepth)))
+	}
+	if sc.FirstDepth != 0 {
+		opts = append(opts, dagsync.FirstSyncDepth(int64(sc.FirstDepth)))
+	}
 	w := subdrv.NewWorld(pubs, opts...)
 	sched := subdrv.NewSched(pubs, sc.Rules, rng.Fork("sched"), sc.Random)
 	sched.Install()
@@ -312,13 +345,13 @@ func runScenario(sc Scenario) (res Result) {
 			switch a.Kind {
 			case "explicit":
 				a.expEvent = !a.Fail
-				a.expCnt = a.head - latestIdx[a.Pub]
+				a.expCnt = sc.blocksOwed(a, latestIdx[a.Pub])
 			case "explicit-head":
 				a.expEvent = false
 			case "announce":
 				a.expEvent = true
 				a.expErr = a.Fail
-				a.expCnt = a.head - latestIdx[a.Pub]
+				a.expCnt = sc.blocksOwed(a, latestIdx[a.Pub])
 			}
 			if a.expEvent {
 				expected++
@@ -336,7 +369,14 @@ func runScenario(sc Scenario) (res Result) {
 					defer cancel()
 					switch a.Kind {
 					case "explicit":
-						a.retCid, a.retErr = w.Sub.SyncAdChain(ctx, p.Info())
+						var so []dagsync.SyncOption
+						if a.Depth != 0 {
+							so = append(so, dagsync.ScopedDepthLimit(int64(a.Depth)))
+						}
+						if a.Seg != 0 {
+							so = append(so, dagsync.ScopedSegmentDepthLimit(int64(a.Seg)))
+						}
+						a.retCid, a.retErr = w.Sub.SyncAdChain(ctx, p.Info(), so...)
 					case "explicit-head":
 						a.retCid, a.retErr = w.Sub.SyncAdChain(ctx, p.Info(), dagsync.WithHeadAdCid(p.Chain[a.head]))
 					case "announce":
@@ -672,6 +712,38 @@ func genRandom(rng *vlib.Rand, seed uint64) Scenario {
 	if rng.Intn(4) == 0 {
 		sc.MaxAsync = 1
 	}
+	// about half of the scenarios run under options that change how the chain is walked
+	// and counted; those grow their chains by up to 7
+	if rng.Intn(2) == 0 {
+		sc.SegDepth = rng.Intn(4) // 0..3
+		sc.AdsDepth = []int{0, 0, 0, 2, 3, 5}[rng.Intn(6)]
+		sc.FirstDepth = []int{0, 0, 1, 2, 4}[rng.Intn(5)]
+		for _, round := range sc.Rounds {
+			for i := range round {
+				round[i].Adv = 1 + rng.Intn(7)
+				if round[i].Kind == "explicit" && rng.Intn(4) == 0 {
+					round[i].Depth = 1 + rng.Intn(4)
+				}
+				if round[i].Kind == "explicit" && rng.Intn(4) == 0 {
+					round[i].Seg = 1 + rng.Intn(3)
+				}
+			}
+		}
+	}
+	return sc
+}
+
+// one publisher whose chain grows by 1..7 advertisements per sync, under the given options
+func genOptions(seed uint64, kind string, seg, ads, first int) Scenario {
+	sc := Scenario{Kind: "options", Seed: seed, NPubs: 1, SegDepth: seg, AdsDepth: ads, FirstDepth: first,
+		Listeners: []ListenerSpec{{Kind: "fast", RegRound: -1, CanRound: -1}}}
+	for adv := 1; adv <= 7; adv++ {
+		k := kind
+		if kind == "mixed" {
+			k = []string{"explicit", "announce"}[adv%2]
+		}
+		sc.Rounds = append(sc.Rounds, []Action{{Pub: 0, Kind: k, Adv: adv}})
+	}
 	return sc
 }
 
@@ -759,6 +831,15 @@ func main() {
 		}
 		record(c, runCloseDuringSync(sc))
 	}
+	// every option that changes how blocks are walked and counted, chains growing by 1..7
+	for seg := 1; seg <= 3; seg++ {
+		for _, kind := range []string{"explicit", "announce"} {
+			record(c, runScenario(genOptions(c.Seed, kind, seg, 0, 0)))
+		}
+	}
+	for _, o := range [][3]int{{0, 2, 0}, {2, 5, 0}, {0, 0, 1}, {2, 0, 3}, {1, 2, 1}, {3, 3, 2}} {
+		record(c, runScenario(genOptions(c.Seed, "mixed", o[0], o[1], o[2])))
+	}
 	// long backlogs, around typical buffer sizes
 	sizes := []int{63, 64, 65, 128, 129}
 	if c.Thorough() {
@@ -780,6 +861,25 @@ func main() {
 func record(c *vlib.Ctx, r Result) {
 	c.Eval()
 	c.Count("scenario:" + r.Sc.Kind)
+	if r.Sc.SegDepth != 0 {
+		c.Count(fmt.Sprint("opt:segment-depth=", r.Sc.SegDepth))
+	}
+	if r.Sc.AdsDepth != 0 {
+		c.Count("opt:ads-depth-limit")
+	}
+	if r.Sc.FirstDepth != 0 {
+		c.Count("opt:first-sync-depth")
+	}
+	for _, round := range r.Sc.Rounds {
+		for _, a := range round {
+			if a.Depth != 0 {
+				c.Count("opt:scoped-depth")
+			}
+			if a.Seg != 0 {
+				c.Count("opt:scoped-segment-depth")
+			}
+		}
+	}
 	c.CountN("events", len(r.Fwd))
 	nontriv := false
 	for _, l := range r.Listeners {
